@@ -24,6 +24,7 @@ type c09Prog struct {
 	Known    []int      `json:"known,omitempty"`    // entries passed as FetchOptions.Exclude ("already have")
 	Timeout  bool       `json:"timeout,omitempty"`  // pass a generous fetch timeout (must not change anything)
 	FSort    bool       `json:"fsort,omitempty"`    // pass the ordering as FetchOptions.SortFn
+	Shared   bool       `json:"shared,omitempty"`   // the caller hands the SAME head slice to every load instead of a copy
 }
 
 func genLoadSpec(t *rapid.T) loadSpec {
@@ -36,7 +37,7 @@ func genLoadSpec(t *rapid.T) loadSpec {
 }
 
 func genC09(t *rapid.T) c09Prog {
-	cfg := sim.GenConfig{MaxReplicas: 4, MaxOps: ev.Scale(28, 60), MinOps: 2, Codecs: []int{0, 1}, AppendBias: 2}
+	cfg := sim.GenConfig{MaxReplicas: 4, MaxOps: ev.Scale(28, 60), MinOps: 2, Codecs: []int{0, 1}, AppendBias: 2, LargeOneIn: ev.Scale(96, 64)}
 	w := sim.Gen(t, cfg)
 	p := c09Prog{World: w, Replica: rapid.IntRange(0, 11).Draw(t, "replica")}
 	p.Merge = rapid.Bool().Draw(t, "merge")
@@ -48,6 +49,7 @@ func genC09(t *rapid.T) c09Prog {
 	}
 	p.Timeout = rapid.IntRange(0, 2).Draw(t, "withTimeout") == 0
 	p.FSort = rapid.Bool().Draw(t, "fsort")
+	p.Shared = rapid.Bool().Draw(t, "sharedInputs")
 	n := rapid.IntRange(1, 3).Draw(t, "nloads")
 	for i := 0; i < n; i++ {
 		p.Loads = append(p.Loads, genLoadSpec(t))
@@ -132,7 +134,7 @@ func runC09(tb ev.TB, p c09Prog) ev.Result {
 		var lerr error
 		var got *loadedLog
 		res := gatedOrPlain(tb, coll, w, spec, func() {
-			l, err := doLoad(ctx, w.Store.API(), w, loader, manifest, jsonLog, append([]iface.IPFSLogEntry(nil), heads...), hash, nil, spec.Concurrency, nil, 0, extra)
+			l, err := doLoad(ctx, w.Store.API(), w, loader, manifest, jsonLog, startEntries(p.Shared, heads), hash, nil, spec.Concurrency, nil, 0, extra)
 			lerr = err
 			if err == nil {
 				got = &loadedLog{id: l.GetID(), entries: world.SetOf(world.Hashes(l.GetEntries())), heads: world.SetOf(world.Hashes(l.Heads())), values: world.Hashes(l.Values()), length: l.Len()}
@@ -207,4 +209,12 @@ func TestC09(t *testing.T) {
 	c.Rule = "a generated multi-replica program (default or link-key codec, both orderings, skip references from pointer counts up to 64) builds log states; one replica state is reloaded 1-3 times, each with a generated loader (manifest / JSON heads / head entries / head hash when single-headed), fetch concurrency in {default,1,2,3,16} and - in 3 of 4 loads - a gated store whose outstanding block reads are released in a generated order. The loaded log must have the same id, entry set (== model set), heads (== unreferenced in the model) and values (== reference sort when strict-total, permutation otherwise). Non-trivial = source with >= 2 heads or skip references and at least one read completed out of issue order; distinct = distinct program."
 	c.Assumptions = []string{"completion orders are produced by a polling controller (settle window 300µs): every order it produces is legal, but a given schedule may map to different orders on a loaded machine; the realised order is stored in the replay file and enforced on replay", "the legacy codec is not reloaded (it cannot read back the v2 entries it writes)"}
 	ev.Check(t, "C09", genC09, runC09)
+}
+
+// startEntries is what the caller passes as the entries to start from: a private copy, or its one slice every time.
+func startEntries(shared bool, heads []iface.IPFSLogEntry) []iface.IPFSLogEntry {
+	if shared {
+		return heads
+	}
+	return append([]iface.IPFSLogEntry(nil), heads...)
 }
